@@ -220,8 +220,14 @@ def phase2 (env : Env) (m : Moment) (w : Int) : Env × List Inst :=
   let awaited := pendingAt env m w
   (if awaited.isEmpty then env else { env with pending := removePending env.pending m w }, awaited)
 
+/-- The call was cancelled by a teardown (`Manager.cancelCallsPendingAwait`): its goroutine has dropped
+    the result and closed the await channel, so a later `Await` reads nil — whatever the call returned. -/
+def isCancelled (env : Env) (i : Inst) : Bool := env.cancelled.any (fun c => c.hook == i.hook && c.k == i.k)
+
 /-- One weight of handleHooks: phases 1–4. Returns the new env, the steps and
-    the number of critical failures at this weight. -/
+    the number of critical failures at this weight. A call that a teardown cancelled (the teardown then
+    failed to release its tasks, so the environment lives on and still lists the call) is collected as a
+    success. -/
 def handleWeight (env : Env) (hooks : List Hook) (m : Moment) (w : Int) : Env × List Step × Nat :=
   let tasks := (hooks.filter (fun h => h.trig = m ∧ h.tw = w)).filter (fun h => h.isTask)
   let p1 := phase1 env hooks m w
@@ -232,7 +238,7 @@ def handleWeight (env : Env) (hooks : List Hook) (m : Moment) (w : Int) : Env ×
   let r3 := instantiate p2.1 tasks
   let s3 := if tasks.isEmpty then [] else [Step.tasks m w r3.2]
   -- phase 4
-  let crit := ((p2.2 ++ r3.2).filter (fun i => i.fails && i.critical)).length
+  let crit := ((p2.2.filter (fun i => !isCancelled env i) ++ r3.2).filter (fun i => i.fails && i.critical)).length
   (r3.1, s1 ++ s2 ++ s3, crit)
 
 def handleWeights (env : Env) (hooks : List Hook) (m : Moment) : List Int → Env × List Step × Nat
